@@ -16,6 +16,7 @@ import signal
 import onnx_ir as ir
 from onnx_ir import traversal
 
+from simcore import knobs as _knobs
 from simcore.prng import Streams, digest
 
 logging.getLogger("onnx_ir").setLevel(logging.ERROR)
@@ -75,7 +76,7 @@ def gen_case(run_seed: int, tier: str, index: int = 0) -> dict:
             steps.append(["step", r.randrange(8), 0, 0])
         else:
             steps.append([r.choices(EDITS, [5, 3, 6, 6, 7, 4, 4, 1, 2, 2])[0], r.randrange(1 << 16), r.randrange(1 << 16), r.randrange(1 << 16)])
-    return {"property": PROPERTY, "run_seed": run_seed, "n0": n0, "nested": nested, "deps": deps, "perm": perm, "function": r.random() < 0.3, "steps": steps, "ref_graph_attrs": Streams(run_seed).rng("ref-graph-attrs").random() < 0.5}
+    return {"property": PROPERTY, "warnings_error": _knobs.warnings_knob(run_seed), "run_seed": run_seed, "n0": n0, "nested": nested, "deps": deps, "perm": perm, "function": r.random() < 0.3, "steps": steps, "ref_graph_attrs": Streams(run_seed).rng("ref-graph-attrs").random() < 0.5}
 
 
 class It:
@@ -152,6 +153,17 @@ class Sim:
 
     def inc(self, k, n=1):
         self.stats[k] = self.stats.get(k, 0) + n
+
+    def foreign_append(self, target, n, owner, owner_model) -> None:
+        try:
+            target.append(n)
+        except ValueError:
+            self.inc("foreign_append_refused")
+        else:
+            self.fail("foreign-node-accepted", f"append() accepted node {self.name(n)} although it belongs to graph {owner.name!r}; it is now listed by both graphs")
+            return
+        if n.graph is not owner or [id(x) for x in owner] != [id(x) for x in owner_model]:
+            self.fail("foreign-node-accepted", f"the refused append() of node {self.name(n)} changed its owner graph {owner.name!r} or the node's graph pointer")
 
     def fail(self, clause, detail):
         if self.viol is None:
@@ -276,7 +288,14 @@ class Sim:
             if kind == "append":
                 n = self.pick(a, b)
                 if n.graph is self.g2:
+                    if c % 3 == 0:
+                        # an edit that must be refused: the node belongs to the other graph (no remove first)
+                        self.foreign_append(cont, n, self.g2, self.M2)
                     self.trace.append((kind, "skip"))
+                    return
+                if c % 7 == 3 and n.graph is not None and self.fn is None:
+                    # the same the other way round: G2 is asked to take a node that G still owns
+                    self.foreign_append(self.g2, n, self.g, self.M)
                     return
                 cont.append(n)
                 last = self.M[-1] if self.M else None
@@ -554,6 +573,11 @@ class Sim:
 
 
 def run_case(case: dict) -> dict:
+    with _knobs.interpreter(case):
+        return _run_case(case)
+
+
+def _run_case(case: dict) -> dict:
     res = {"violation": None, "error": None, "stats": {}, "steps": 0, "distinct": [], "states": [], "case": case}
     sim = Sim(case)
     steps = case["steps"]
